@@ -17,6 +17,9 @@
 #include <fcppt/parse/position.hpp>
 #include <fcppt/parse/detail/stream_impl.hpp>
 #include <fcppt/parse/skipper/basic_char_set.hpp>
+#include <fcppt/parse/skipper/operators/repetition.hpp>
+#include <fcppt/parse/operators/sequence.hpp>
+#include <fcppt/parse/basic_char_set_container.hpp>
 #include <fcppt/parse/skipper/basic_literal.hpp>
 #include <fcppt/parse/skipper/epsilon.hpp>
 
@@ -652,6 +655,36 @@ void failing_streams()
                         "phrase_parse_stream(literal a) mode=" + std::to_string(mode) + " limit=" + std::to_string(limit) +
                             (r.has_success() ? " succeeded" : " failed"));
         VF_COUNT("stream/failing/entry-point-runs");
+      }
+      // the same with a skipper that READS the stream (phrase_parse runs the skipper once before the parser): a device
+      // that fails at its very first read, or inside the leading white space, still "yields a failure" - the result of
+      // the entry point - never an exception of the stream layer
+      {
+        Str const padded{Ch(' '), Ch(' '), Ch('a'), Ch('b')};
+        for (std::size_t lim2 = 0; lim2 <= padded.size(); ++lim2)
+        {
+          fault_buf<Ch> buf(padded, lim2, mode);
+          std::basic_istream<Ch> is(&buf);
+          auto parser = fcppt::parse::basic_literal<Ch>{Ch('a')} >> fcppt::parse::basic_literal<Ch>{Ch('b')};
+          bool threw = false, success = false;
+          try
+          {
+            auto r = fcppt::parse::phrase_parse_stream(
+                parser, is, *fcppt::parse::skipper::basic_char_set<Ch>{fcppt::parse::basic_char_set_container<Ch>{Ch(' ')}});
+            success = r.has_success();
+          }
+          catch (fcppt::parse::detail::exception<Ch> const &)
+          {
+            threw = true;
+          }
+          if (threw)
+            vf::violation(e + "/entry-point/stream-layer-exception-escapes", "mismatch",
+                          "phrase_parse_stream with a white space skipper: mode=" + std::to_string(mode) + " the device fails after " + std::to_string(lim2) + " of 4 characters");
+          else if (success != (lim2 >= padded.size() && mode != 2)) // (a device that cannot seek fails the rewind of the skipper repetition)
+            vf::violation(e + "/entry-point/with-reading-skipper", "mismatch",
+                          "mode=" + std::to_string(mode) + " limit=" + std::to_string(lim2) + (success ? " succeeded" : " failed"));
+          VF_COUNT("stream/failing/entry-point-runs-with-reading-skipper");
+        }
       }
     }
 }
